@@ -71,7 +71,7 @@ class Mod(dict):
         )
 
         # matches name from spec
-        if not re.match(r'^[a-zA-Z]\w{0,62}$', name, re.ASCII):
+        if not re.fullmatch(r'[a-zA-Z]\w{0,62}', name, re.ASCII):
             raise ConfigError(f'Not a valid SECoP Module name: "{name}".'
                               ' Does it only contain letters, numbers and underscores?')
         # Make parameters out of all keywords
